@@ -199,7 +199,59 @@ def mon_protocol_c11(sess, sc):
     return [b for b in pmcheck.mon_protocol(sess, sc) if not any(("client %d" % d) in b[2] for d in stalled)]
 
 
+def cross_session_stage(ctx, V, exe, n):
+    """what one session leaves behind must not reach another:
+      queue   k sessions each switch one node of the same (healthy, slow: `delay` in the script) device at the same moment; every action is well
+              inside the device time-out on its own, all of them together are not: the time an action spends QUEUED behind other sessions'
+              actions is not its own - every session gets 102;
+      result  session A's command fails for one plug (the device says ERR; setresult records it; A gets 210); session B then runs a command
+              whose script records no per-plug result at all (no setresult): B's reply reflects B's actions only - 102."""
+    import random
+    scs = []
+    for i in range(n):
+        rng = random.Random(ctx.seed * 2750159 + i)
+        cfg = pmgen.Config()
+        d0 = pmgen.Dev("d0", ["login", "on", "off", "cycle", "status"], hardwired=["p1", "p2", "p3"], transport=rng.choice(["pipe", "tcp"]), timeout=3.0)
+        cfg.devs.append(d0); cfg.node_lines.append(("n0,n1,n2", "d0", "p1,p2,p3")); cfg.truth = {"d0": {"p1": "n0", "p2": "n1", "p3": "n2"}}
+        if i % 2 == 0:
+            D = rng.choice(["1.1", "1.2", "1.4"])
+            body = pmgen.script_text("on"); first, rest = body.split("\n", 1)
+            d0.bodies["on"] = first + "\n\t\tdelay %s\n" % D + rest
+            S = [("connect",), ("connect",), ("connect",), ("wait", 0), ("wait", 1), ("wait", 2)]
+            order = [0, 1, 2]; rng.shuffle(order)
+            for k in order: S.append(("send", k, ("on n%d\r\n" % k).encode()))
+            S += [("wait", 0), ("wait", 1), ("wait", 2)]
+            sc = pmcheck.Scenario(cfg, S, dict(style="c11-queue", ncli=3, want={0: [102], 1: [102], 2: [102]}))
+        else:
+            d0.bodies["cycle"] = 'send "CYCLE %s\\n"\n\t\texpect "done\\n"'
+            bad = rng.choice(["p1", "p2"])
+            S = [("connect",), ("connect",), ("wait", 0), ("wait", 1), ("verdict", "d0", bad, "ERR"),
+                 ("send", 0, b"on n[0-1]\r\n"), ("wait", 0), ("send", 1, rng.choice([b"cycle n2\r\n", b"cycle n[0-2]\r\n", b"cycle n1\r\n"])), ("wait", 1),
+                 ("send", 1, b"cycle n0\r\n"), ("wait", 1)]
+            sc = pmcheck.Scenario(cfg, S, dict(style="c11-result", ncli=2, want={0: [210], 1: [102, 102]}))
+        scs.append(sc)
+
+    def mon_want(sess, sc):
+        if not sess.alive_after_script or sess.wedged or sess.overrun:
+            return []
+        bad = []
+        for k, want in sc.tags["want"].items():
+            codes = [r[0] for r in (pmcheck.split_replies(sess.client_out.get(k, b"")) or []) if isinstance(r[0], int)]
+            if codes != want:
+                bad.append(("cross-session", sc.tags["style"][4:], "client %d: replies %s, expected %s (its own actions all %s): %r" % (
+                    k, codes, want, "succeeded" if want[0] == 102 else "as the device said", sess.client_out.get(k, b"")[-300:])))
+        return bad
+    pmcheck.MONITORS["c11want"] = mon_want
+    pmcheck.run_batch(ctx, V, exe, scs, ["alive", "wedge", "c11want"], "c11x")
+    V.count("cross-session-histories", len(scs))
+
+
 def run(ctx, V):
+    _run(ctx, V)
+    cross_session_stage(ctx, V, pmsim.build(ctx), 16 if ctx.tier == "quick" else 300)
+
+
+def _run(ctx, V):
     import C06
     proofs_ok = vlib.proof_gate(ctx, V, extract=["Extract/ExClient.vo", "Extract/ExEnqueue.vo"])
     exe = pmsim.build(ctx)
@@ -224,13 +276,6 @@ def run(ctx, V):
     # nothing else happens): the other session must be served as if the non-reader were not there, and the loop must not block on its socket
     import C04
 
-    def mon_nonreader(sess, sc):
-        out = sess.client_out.get(1, b"")
-        reps = pmcheck.split_replies(out) or []
-        if not any(isinstance(c[0], int) and 100 <= c[0] < 200 for c in reps):
-            return [("non-reader", "other-session-starved", "client 1 asked `nodes` while client 0 (not reading, owed more than 1 MiB) was being served: no successful reply arrived: %r" % out[-300:])]
-        return []
-    pmcheck.MONITORS["nonreader"] = mon_nonreader
     ov = [C04.gen_overflow(ctx.rng, "out") for _ in range(2 if ctx.tier == "quick" else 6)]
     pmcheck.run_batch(ctx, V, exe, ov, ["alive", "wedge", "nonreader"], "c11o")
     V.count("non-reader-over-1MiB", len(ov))
